@@ -276,6 +276,12 @@ fn run_check(id: &str, tier: &str) -> i32 {
                     out.findings.clear();
                     out.stat("inconclusive.step_budget_while_progressing", 1);
                 }
+                // a child that was killed by the wall-clock watchdog left a truncated history: the run
+                // is a harness error (counted below), and nothing else is concluded from it
+                if out.harness_errors.iter().any(|e| e.contains("atchdog")) && !out.findings.is_empty() {
+                    out.findings.clear();
+                    out.stat("inconclusive.watchdog", 1);
+                }
                 let mut nondet = false;
                 let mut rechecked = 0;
                 if i % 100 == 7 {
